@@ -42,7 +42,7 @@ Definition access_ok (a : access) : bool :=
   else if String.eqb r "_random_sequence_id" then
     String.eqb k "draw" && one_of f ["BaseDataFrame.__init__"; "BaseDataFrame.alias"]
   else if String.eqb r "_auto_incrementing_name" then
-    String.eqb k "draw" && String.eqb f "_BaseSession.createDataFrame"
+    String.eqb k "draw" && one_of f ["_BaseSession.createDataFrame"; "BaseDataFrame._add_ctes_to_expression"]
   else if String.eqb r "_add_alias_to_mapping" then
     String.eqb k "call" && String.eqb f "BaseDataFrame.alias"
   else false.
